@@ -11,7 +11,8 @@ META = dict(
          "extend(-x) and, for MonoTimer where reading has a side effect, reads of elapsed / remaining / expired.  After every step start, stop, duration "
          "(and latest) of the real timer must equal the model, elapsed == max(0, clock - start), remaining == max(0, stop - clock), expired == "
          "(clock >= stop); the MonoTimer model first shifts start and stop by a backward jump since the last look (or raises TimerRetroError) and then "
-         "applies the operation.  All times are dyadic, so float arithmetic is exact.",
+         "applies the operation.  Four more configurations keep two MonoTimers alive on the same clock (retro True/False x True/False, the second "
+         "constructed at any point) and judge each against its own independent reference.  All times are dyadic, so float arithmetic is exact.",
     note="The real clock is never read.  After an uncompensated MonoTimer raised, either keeping or advancing its 'latest' mark is accepted; return values "
          "of restart/repeat/extend are not compared; extend(-x) is only applied while it keeps the duration non-negative.",
 )
@@ -310,11 +311,172 @@ def explore(arg):
     return part
 
 
+# ------------------------------------------------------------------ two MonoTimers on one clock
+
+PAIRS = [(ra, rb) for ra in (True, False) for rb in (True, False)]
+PAIR_OPS = ([("clock", 0.25), ("clock", 1.0), ("clock", -0.5), ("make_b",)]
+            + [(x, o) for x in ("a", "b") for o in ("elapsed", "remaining", "expired", "restart", "repeat", "extend")])
+
+
+def pair_text(op, rb):
+    if op[0] == "clock":
+        return "clk.now += %r" % op[1]
+    if op[0] == "make_b":
+        return "b = MonoTimer(duration=1.0, retro=%r)" % rb
+    x, o = op
+    return "%s.%s" % (x, o) + ("" if o in ("elapsed", "remaining", "expired") else "()")
+
+
+def explore_pair(arg):
+    """Two live MonoTimers read the same clock; the second may be constructed at any point.  Each is judged against
+    its own independent reference (the single-timer model above): what one timer sees or does must not affect the other."""
+    cfg, depth = arg
+    ra, rb = PAIRS[cfg]
+    core.use_repo()
+    from ioflo.aid import timing
+    from ioflo.base import storing
+    if not isinstance(timing.time, FakeTimeModule):
+        timing.time = FakeTimeModule()
+        storing.time = timing.time
+    clk = timing.time
+    name = "two MonoTimers"          # the retro combination is in the example (init line), not in the group
+    init = "clk.now = 1000.0; a = MonoTimer(duration=1.0, retro=%r)" % ra
+    kinds = dict(a=2 if ra else 1, b=2 if rb else 1)         # index into KINDS for the single-timer model
+    part = core.Part()
+
+    def texts(hist):
+        return [pair_text(o, rb) for o in hist]
+
+    def run(ns, text):
+        try:
+            if "(" not in text and " " not in text:
+                return ("value", eval(text, ns))
+            exec(text, ns)
+            return ("ok", None)
+        except Exception as ex:
+            return ("exc", type(ex).__name__)
+
+    def replay(hist):
+        ns = dict(clk=clk, MonoTimer=timing.MonoTimer)
+        exec(init, ns)
+        for o in hist:
+            run(ns, pair_text(o, rb))
+        return ns
+
+    def rstate(ns):
+        def one(t):
+            return None if t is None else (t.start, t.stop, t.duration, t.latest)
+        return (one(ns["a"]), one(ns.get("b")), clk.now)
+
+    def model(st, op):
+        """-> list of (state, outcome)"""
+        A, B, clock = st
+        if op[0] == "clock":
+            return [((A, B, clock + op[1]), "ok")]
+        if op[0] == "make_b":
+            return [((A, (clock, clock + 1.0, 1.0, clock), clock), "ok")]
+        x, o = op
+        cur = A if x == "a" else B
+        sop = (o, None) if o == "extend" else (o,)
+        out = []
+        for s2, outcome in apply_model(kinds[x], cur + (clock,), sop):
+            t2 = s2[:4]
+            out.append((((t2, B, clock) if x == "a" else (A, t2, clock)), outcome))
+        return out
+
+    def pcanon(st):
+        A, B, clock = st
+        rel = lambda t: None if t is None else (t[0] - clock, t[1] - clock, t[2], t[3] - clock)
+        return (rel(A), rel(B))
+
+    def complain(group, hist, what, extra):
+        part.violation("%s.%s" % (name, group), "%s; %s" % (init, "; ".join(texts(hist))),
+                       "%s after [%s; %s]: %s" % (name, init, "; ".join(texts(hist)), what),
+                       dict(init="import ioflo.aid.timing as timing; clk = FakeTimeModule(); timing.time = clk   # clk.time() returns clk.now\n" + init,
+                            history=texts(hist), **extra))
+
+    st0 = ((1000.0, 1001.0, 1.0, 1000.0), None, 1000.0)
+    ns = replay(())
+    part.traces += 1
+    if rstate(ns) != st0:
+        complain("constructor|wrong initial state", (), "fresh timer is %r" % (rstate(ns),), {})
+        return part
+    seen = {pcanon(st0)}
+    frontier = collections.deque([((), st0)])
+    while frontier:
+        hist, st = frontier.popleft()
+        if len(hist) >= depth:
+            continue
+        for op in PAIR_OPS:
+            if op[0] == "make_b" and st[1] is not None:
+                continue
+            if op[0] == "b" and st[1] is None:
+                continue
+            ns = replay(hist)
+            text = pair_text(op, rb)
+            got = run(ns, text)
+            h2 = hist + (op,)
+            part.transitions += 1
+            part.traces += 1
+            part.evaluations += 1
+            rs = rstate(ns)
+            part.outcome("pair.%s:%s" % (op[1] if op[0] in ("a", "b") else op[0], got[1] if got[0] == "exc" else "ok"))
+            chosen = None
+            alts = model(st, op)
+            for s2, outcome in alts:
+                if outcome == "TimerRetroError":
+                    okres = got == ("exc", "TimerRetroError")
+                elif outcome == "ok":
+                    okres = got[0] == "ok"
+                else:
+                    okres = got == outcome and type(got[1]) is type(outcome[1])
+                if okres and rs == s2:
+                    chosen = s2
+                    break
+            if chosen is None:
+                s2, outcome = alts[0]
+                opn = ".".join(str(x) for x in op if x is not None) if op[0] in ("a", "b") else op[0]
+                if outcome == "TimerRetroError" and got[0] != "exc":
+                    grp, what = "%s|no TimerRetroError" % opn, "%s did not raise on a backward clock jump (got %r)" % (text, got[1])
+                elif got[0] == "exc" and outcome != "TimerRetroError":
+                    grp, what = "%s|raises %s" % (opn, got[1]), "%s raises %s, model: %r" % (text, got[1], outcome)
+                elif isinstance(outcome, tuple) and got != outcome:
+                    grp, what = "%s|wrong value" % opn, "%s is %r, its own reference: %r" % (text, got[1], outcome[1])
+                else:
+                    which = [n for n, x, y in zip(("timer a", "timer b", "clock"), rs, s2) if x != y]
+                    acted = {"a": "timer a", "b": "timer b", "make_b": "timer b"}.get(op[0])
+                    others = [w for w in which if w not in (acted, "clock")]
+                    if others:       # one coarse group: whatever the operation, it reached into the other timer
+                        grp = "cross-talk|%s changed by %s" % (others[0], "constructing timer b" if op[0] == "make_b"
+                                                                 else "an operation on %s" % acted)
+                    else:
+                        grp = "%s|%s differ" % (opn, "+".join(which))
+                    what = "after %s the timers are (a, b, clock) with each (start, stop, duration, latest) = %r, independent references: %r" % (text, rs, s2)
+                complain(grp, h2, what, dict(op=text, got=got, got_state=rs, expected_state=s2, expected=outcome))
+                continue
+            k = pcanon(chosen)
+            if k not in seen:
+                seen.add(k)
+                frontier.append((h2, chosen))
+                part.nontrivial(repr(("pair", cfg, k)))
+                if len(seen) % 499 == 11:
+                    part.sample(dict(timers=init, history=texts(h2), state=chosen))
+    part.states = len(seen)
+    part.extra["two MonoTimers(a retro=%r, b retro=%r)" % (ra, rb)] = dict(states=len(seen), depth_bound=depth, operations=len(PAIR_OPS))
+    return part
+
+
+def work(arg):
+    return explore_pair(arg[1:]) if arg[0] == "pair" else explore(arg[1:])
+
+
 def run():
     ck = core.Check("C42", "model_checking", META["technique"])
     depth = 5 if core.TIER == "quick" else 8
     # MonoTimer has 3 more operations (its reads); one level less keeps its shards the size of the others
-    ck.merge(core.pmap(explore, [(i, depth - 1 if KINDS[c[0]][2] else depth) for i, c in enumerate(CONFIGS)], procs=min(core.NPROC, 8)))
+    items = [("single", i, depth - 1 if KINDS[c[0]][2] else depth) for i, c in enumerate(CONFIGS)]
+    items += [("pair", j, depth - 1) for j in range(len(PAIRS))]
+    ck.merge(core.pmap(work, items, procs=min(core.NPROC, 8)))
     ck.assumptions = [
         "clock seam: ioflo.aid.timing.time (module attribute) replaced by an object with time(); StoreTimer reads a timing.Stamper or a real Store "
         "(whose own time.time() use is redirected to the same fake); the real clock is never used",
@@ -324,6 +486,8 @@ def run():
         "all clock values, starts and durations are multiples of 0.25 and clock readings stay >= 0, so every float operation is exact and == is the right comparison",
         "MonoTimer: a backward jump is one relative to the last time the timer looked at the clock (that is all it can detect); the model looks first, "
         "then applies the operation to the shifted start/stop",
+        "two MonoTimers alive on one clock (all four retro combinations, the second constructed at any point of the history) are each held to their own "
+        "single-timer reference: a timer's reads, restarts or construction must not change what another timer sees of a backward jump",
         "after TimerRetroError the timer may keep or advance its 'latest' mark; extend(-x) only while duration stays >= 0; return values not compared",
         "dedupe is on values relative to the clock (timer code is translation invariant) plus the flags start == 0.0, stop == 0.0, clock == 0.0 / None",
     ]
@@ -331,7 +495,8 @@ def run():
         rule="BFS over all histories of length <= %d (MonoTimer: one less) of 3-4 clock moves and 10 timer operations (restart(), restart(start=clock-0.5 / clock+0.25 / 0.0 / 0.5), "
              "restart(duration), repeat(), extend(), extend(0.5), extend(-0.25); +3 reads for MonoTimer) for %d configurations (Timer, MonoTimer x2, "
              "StoreTimer on Stamper and on a real Store; created at clock 1000.0 / 0.0 / unstamped; initial duration 1 / 0), deduped on "
-             "(start-clock, stop-clock, duration, latest-clock, zero flags); non-trivial = distinct reachable state" % (depth, len(CONFIGS)),
+             "(start-clock, stop-clock, duration, latest-clock, zero flags); plus 4 two-MonoTimer configurations (3 clock moves, construct b, "
+             "elapsed/remaining/expired/restart/repeat/extend on a and on b) to depth %d; non-trivial = distinct reachable state" % (depth, len(CONFIGS), depth - 1),
         exhaustive=True)
 
 
